@@ -16,11 +16,15 @@ from .affine import Unsupported, const_bits
 
 LEVEL = "other"
 MANIFEST = {
-    "text": "decides, for each enumerated shape (AD lengths 0..17, plaintext lengths 0..33, several chunkings) "
-            "and all key/nonce/data values of that shape, that one-shot, incremental and masked encryption of "
-            "ASCON-128/128a/80pq return exactly the ciphertext and tag of the ASCON v1.2 specification "
-            "(permutation as uninterpreted function) and report mlen + 16; the C++ wrappers forward to these "
-            "functions (C17.D2); unbounded lengths are covered only by the uniformity of the block loops",
+    "text": "decides, for each enumerated shape (quick: AD lengths 0/1/8/17 x plaintext lengths 0..33 sampled; "
+            "thorough: AD 0..18 and block boundaries up to 129, plaintext 0..34 and block boundaries up to 4099, "
+            "several chunkings) and all key/nonce/data values of that shape, that one-shot, incremental (incl. "
+            "multi-packet sessions under nonce+i), masked (fresh and re-randomised key objects, every value of "
+            "the masking randomness) encryption of ASCON-128/128a/80pq return exactly the ciphertext and tag of "
+            "the ASCON v1.2 specification (permutation as uninterpreted function; its rounds are proved under "
+            "C08.D1 / C18.D5 / C10.D5-D6) and report mlen + 16; D2: no zero-extended 32-bit mask truncates a "
+            "size_t length; the C++ wrappers forward to these functions (C17.D2); other lengths are covered only "
+            "by the uniformity of the block loops",
     "note": "abstract interpretation of the LLVM IR over GF(2)-affine bit expressions with the permutation as a "
             "function symbol; specification oracle validated against the 7164 published KAT vectors "
             "(tools/validate_oracle.py); trusted: clang lowering, irdump, the interpreter",
